@@ -247,6 +247,63 @@ impl Prop for C13 {
 
     fn run_case(&mut self, cx: &CaseCx, out: &mut Out) {
         let mut r = xo(cx.seed);
+        // a distribution that validation refuses, offered inside a machine in each position a distribution
+        // can take (alone and next to valid siblings): whatever machine validation accepts must run
+        if r.chance(1, 16) {
+            out.evaluations += 1;
+            let bad = loop {
+                let fam = r.below(11);
+                let d = Dist::new(gen_type(&mut r, fam), 0.0, 0.0);
+                if d.validate().is_err() {
+                    break d;
+                }
+            };
+            let ok = crate::gen::constant(1.0);
+            let okc = Some(Counter::new_dist(Operation::Decrement, ok));
+            let badc = |op| Some(Counter::new_dist(op, bad));
+            let place = r.below(9);
+            let (action, counter) = match place {
+                0 => (Some(Action::SendPadding { bypass: false, replace: false, timeout: bad, limit: None }), (None, None)),
+                1 => (Some(Action::SendPadding { bypass: false, replace: false, timeout: ok, limit: Some(bad) }), (None, None)),
+                2 => (Some(Action::BlockOutgoing { bypass: false, replace: false, timeout: ok, duration: bad, limit: Some(ok) }), (None, None)),
+                3 => (Some(Action::UpdateTimer { replace: false, duration: ok, limit: Some(bad) }), (okc, None)),
+                4 => (None, (badc(Operation::Set), None)),
+                5 => (None, (None, badc(Operation::Set))),
+                6 => (None, (okc, badc(Operation::Increment))),
+                7 => (None, (badc(Operation::Increment), okc)),
+                _ => (Some(Action::Cancel { timer: maybenot::action::Timer::All }), (okc, badc(Operation::Set))),
+            };
+            let mut s0 = State::new(enum_map! { Event::NormalSent => vec![Trans(1, 1.0)], _ => vec![] });
+            s0.action = None;
+            let mut s1 = State::new(enum_map! { Event::NormalSent => vec![Trans(0, 1.0)], _ => vec![] });
+            s1.action = action;
+            s1.counter = counter;
+            match Machine::new(u64::MAX, 0.0, u64::MAX, 0.0, vec![s0, s1]) {
+                Err(_) => out.bump("machines_with_a_refused_distribution_rejected"),
+                Ok(m) => {
+                    out.bump("machines_with_a_refused_distribution_ACCEPTED_and_run");
+                    let ms = [m];
+                    let res = catch_unwind(AssertUnwindSafe(|| {
+                        let mut g = ScriptRng::fair(r.next_u64());
+                        g.budget = DRAW_BUDGET;
+                        if let Ok(mut fw) = Framework::new(&ms[..], 0.0, 0.0, VClock(0), g) {
+                            for i in 0..4 {
+                                let _ = trigger(&mut fw, &[TriggerEvent::NormalSent], VClock(i));
+                            }
+                        }
+                    }));
+                    if res.is_err() {
+                        let (msg, loc) = take_panic();
+                        out.violation(
+                            format!("C13/accepted-machine-crashed-through-its-distribution/{}", panic_sig(&msg, &loc)),
+                            format!("machine validation accepted {bad:?} in position {place} although Dist::validate refuses it; running the machine: {msg} at {loc}"),
+                            json!({"dist": format!("{bad:?}"), "position": place}),
+                        );
+                    }
+                }
+            }
+            return;
+        }
         let mut rejected = 0;
         let (d, fam) = gen_dist(&mut r, &mut rejected);
         out.add("candidate_distributions_rejected_by_validation_(incl._parameters_beyond_the_bounds)", rejected);
